@@ -127,6 +127,10 @@ def shadow(modname: str, rebind: dict | None = None, cuts: dict | None = None, c
 
         tree = loopcut.transform(tree, cuts, dropped)
         ast.fix_missing_locations(tree)
+    if rebind and rebind.get("__fmt__"):
+        tree = _FmtRewrite().visit(tree)
+        ast.fix_missing_locations(tree)
+        dropped.append("every `\"literal\" % args` is routed through __pyvc__.fmt (identical to % on concrete args)")
     mod = types.ModuleType(modname)
     mod.__file__ = path
     if os.path.basename(path) == "__init__.py":
@@ -156,6 +160,20 @@ def shadow(modname: str, rebind: dict | None = None, cuts: dict | None = None, c
     if cache_key is not None:
         _SHADOW_CACHE[key] = mod
     return mod
+
+
+class _FmtRewrite(ast.NodeTransformer):
+    """`"literal" % X`  ->  `__pyvc__.fmt("literal", X)`: on concrete X this IS `%`; on
+    symbolic X it builds a SymFormat (so that struct formats such as ">%dL" % n and error
+    messages never force a symbolic number to text)."""
+
+    def visit_BinOp(self, node):
+        self.generic_visit(node)
+        if isinstance(node.op, ast.Mod) and isinstance(node.left, ast.Constant) and isinstance(node.left.value, str):
+            return ast.copy_location(ast.Call(
+                func=ast.Attribute(value=ast.Name(id="__pyvc__", ctx=ast.Load()), attr="fmt", ctx=ast.Load()),
+                args=[node.left, node.right], keywords=[]), node)
+        return node
 
 
 def shadow_functions(modname: str, qualnames, rebind: dict | None = None, cuts: dict | None = None):
